@@ -202,12 +202,39 @@ def run(ctx):
                                     rng.randrange(0xE000, 0x10000), rng.randrange(0x10000, 0x10FFFF)])) for _ in range(ln))
         pos = rng.randrange(len(s) + 1)
         pool.append(s[:pos] + rng.choice(':_') + s[pos:])
-    check_parse(ctx, pool + ['HP1', '', 'abc', 'é'], 'parse.unicode+realistic')
-    uspecs = [(s, parsed_spec(s), c) for s in pool for c in 'DS']
+    # characters that pattern-based or line-based code treats specially: line breaks of every kind, NUL, tab, other separators - before the
+    # delimiter, right after it, last in the id, and between the two kinds of delimiter
+    odd = ['\n', '\r', '\r\n', '\t', '\x00', '\x0b', '\x0c', '\x1c', '\x1d', '\x1e', '\x1f', '\x85', '\u2028', '\u2029', ' ', '\xa0', '.', '*', '\\']
+    for ch in odd:
+        pool += ['HP:1' + ch, 'HP:' + ch + '1', 'HP' + ch + ':1', ch + 'HP:1', 'a:' + ch + '_b', 'a_' + ch + ':b', 'HP_1' + ch, ch + ':' + ch, 'HP' + ch + '_1']
+    for t in itertools.product('H:_\n', repeat=4):
+        pool.append(''.join(t))
+    check_parse(ctx, pool + ['HP1', '', 'abc', 'é', '\n', 'HP\n1', 'HP1\n'], 'parse.unicode+realistic')
+    uspecs = [(s, parsed_spec(s), c) for s in pool if parsed_spec(s) >= 0 for c in 'DS']
     m = len(uspecs)
     pairs = [(a, b) for a in range(m) for b in range(m)] if thorough else \
         [(rng.randrange(m), rng.randrange(m)) for _ in range(60000)] + [(a, b) for a in range(2 * 45) for b in range(2 * 45)]
     check_pairs(ctx, uspecs, pairs, 'cmp.unicode+realistic')
+    # 3b. ids that were made EARLY against ids parsed from the same strings LATE, with thousands of other prefixes and ids in between
+    # (anything bounded - an intern table, a memo - has been through its eviction path by then): equal, same hash, neither < nor >
+    TermId = _impl()[0]
+    early_src = ['HP:0000118', 'MP:1', 'owl:Thing', 'A_B:1', 'é:1', 'P0:1', 'P1:1', 'P255:1', 'P256:1', 'Q_7']
+    early = [TermId.from_curie(x) for x in early_src]
+    filler = []
+    for i in range(70000 if thorough else 3000):
+        filler.append(TermId.from_curie(f'P{i}:{i % 7}'))
+        if i in (255, 256, 257, 1023, 1024, 1025, 2999, 65535, 65536, 65537):
+            for x, t in zip(early_src, early):
+                t2 = TermId.from_curie(x)
+                f2 = TermId.from_curie(f'P{i}:{i % 7}')
+                okk = t2 == t and t == t2 and hash(t2) == hash(t) and not (t < t2) and not (t2 < t) and t2 in {t} and f2 == filler[-1] and \
+                    (t2.prefix, t2.id, t2.value) == (t.prefix, t.id, t.value)
+                ctx.case(['late-vs-early', x, i], True, 'early-vs-late')
+                if not okk:
+                    ctx.violation('early-vs-late', {'case': {'kind': 'early-late', 'curie': x, 'others_in_between': i + 1},
+                                                    'impl': f'TermId.from_curie({x!r}) made before and after {i + 1} other ids: eq {t2 == t}, same hash {hash(t2) == hash(t)}, '
+                                                            f'lt {t < t2} / {t2 < t}, in set {t2 in {t}}',
+                                                    'theorem': 'Hpv.Props.C04.eq_iff / hash_eq / lt_strict_total'})
     # 4. sorting / bisect over random subsets
     sorts = []
     for _ in range(3000 if thorough else 600):
@@ -223,5 +250,13 @@ def replay(ctx, data):
     elif case['kind'] == 'cmp':
         specs = [tuple(case['a']), tuple(case['b'])]
         check_pairs(ctx, specs, [(0, 1), (1, 0)], 'replay')
+    elif case['kind'] == 'early-late':
+        TermId = _impl()[0]
+        t = TermId.from_curie(case['curie'])
+        for i in range(case['others_in_between']):
+            TermId.from_curie(f'P{i}:{i % 7}')
+        t2 = TermId.from_curie(case['curie'])
+        if not (t2 == t and hash(t2) == hash(t) and not (t < t2) and not (t2 < t) and t2 in {t}):
+            ctx.violation('early-vs-late', {'case': case, 'impl': f'eq {t2 == t}, same hash {hash(t2) == hash(t)}'})
     elif case['kind'] == 'sort':
         check_sorts(ctx, [[tuple(s) for s in case['ids']]], 'replay')
